@@ -64,6 +64,9 @@ def run(ctx) -> None:
     from .c01 import check_bound_class_from_bound_tables
 
     check_bound_class_from_bound_tables(ctx, "C05.R5")
+    from .c08 import check_default_existential
+
+    check_default_existential(ctx, "C05.R5")
 
     for name in ("has_default_for", "get_default_for"):
         m = gn.methods.get(name)
